@@ -257,14 +257,32 @@ class Check:
         check: the remaining steps and the bounded tier still run."""
         from .symex import Unsupported
         label = getattr(step, "__name__", str(step))
+        fallback = kw.pop("fallback", ())
+        n_und = len(self.undecided)
         try:
-            return step(self, *args, **kw)
+            r = step(self, *args, **kw)
+            if len(self.undecided) == n_und:
+                return r
         except Unsupported as u:
             self.undecided.append(f"{self.prop}/{label}: UNSUPPORTED {u}")
         except Exception as e:
             tb = traceback.format_exc(limit=4).strip().splitlines()
             self.undecided.append(f"{self.prop}/{label}: CONTRACT-MISFIT the sidecar contract does not fit the current code "
                                   f"shape ({type(e).__name__}: {e}) @ {tb[-2].strip() if len(tb) > 1 else ''}")
+        # no proof verdict for (part of) this step: the native replayers of its contract still run as a bounded search,
+        # so a change that both leaves the engine's subset and breaks the contract is reported, not just "undecided"
+        for rp in fallback:
+            try:
+                rep = rp({})
+            except Exception as e:
+                rep = {"failed": False, "description": f"replayer crashed: {type(e).__name__}: {e}"}
+            if rep and rep.get("failed"):
+                self.failures.append(Failure(
+                    source=f"{self.prop}/{label}/native-search", key=rep.get("key") or f"{self.prop}/{label}/native-search",
+                    message=f"no proof verdict for {label} (see UNDECIDED); the native bounded search of the same contract "
+                            f"fails :: {rep.get('description', '')}",
+                    witness=rep.get("witness"), natively_confirmed=True, replay=rep.get("replay"),
+                    extra={"obligation": f"{label}/native-search", "native": rep}))
 
     def parallel(self, modname, funcname, arglist, workers=16):
         """run ``modname.funcname(sub_check, *args)`` for every args in worker processes; each worker
